@@ -358,13 +358,24 @@ Definition chk_e2e (c : vcase * option bool) := opt_bool_eqb (snd c) (validate_r
 Definition chain_outcome_eqb (a b : chain_outcome) := match a, b with CConflict, CConflict | CMismatch, CMismatch | COk, COk => true | _, _ => false end.
 Definition chk_chain (c : (bool * level * list level) * option chain_outcome) :=
   match snd c with Some o => chain_outcome_eqb o (chain_run strict_spec lenient_spec (fst (fst (fst c))) (snd (fst (fst c))) (snd (fst c))) | None => false end.
-(* what the statement asks for: EVERY typed feature of a strict call is judged strictly *)
+(* what the statement asks for: a typed feature is judged by the STRICT table iff the call asked for strict enforcement or the
+   feature itself / a feature above it in the chain carries strict_type_enforcement=True (a feature's group options apply to
+   the input features it asks for); otherwise by the lenient table.  Option conflicts (True above, False below) are not judged. *)
+Fixpoint spec_flags (inherited : bool) (ls : list level) : list bool :=
+  match ls with
+  | [] => []
+  | l :: t => let s_ := inherited || (match l_own l with STrue => true | _ => false end) in s_ :: spec_flags s_ t
+  end.
+Definition spec_raises (api : bool) (ls : list level) : bool :=
+  existsb (fun lf : level * bool => validate_raises strict_spec lenient_spec (vcase_of (fst lf) (if snd lf then STrue else SAbsent)))
+          (combine ls (spec_flags api ls)).
 Definition chk_chain_spec (c : (bool * level * list level) * option chain_outcome) :=
   match c with ((api, top, rest), o) =>
     match o with
-    | Some COk => negb (existsb (fun l => validate_raises strict_spec lenient_spec (vcase_of l (if api then STrue else l_own l))) (top :: rest))
-    | Some CMismatch => existsb (fun l => validate_raises strict_spec lenient_spec (vcase_of l (if api then STrue else l_own l))) (top :: rest)
-    | _ => false end end.
+    | Some COk => negb (spec_raises api (top :: rest))
+    | Some CMismatch => spec_raises api (top :: rest)
+    | Some CConflict => true
+    | None => false end end.
 Definition chk_conflict (c : (option dtype * option dtype) * option bool) :=
   opt_bool_eqb (snd c) (match set_data_type (fst (fst c)) (snd (fst c)) with inr _ => true | inl _ => false end).
 """
